@@ -221,12 +221,12 @@ theorem normalize2_row_congr (n n' kk : Nat) (m m' : Mat α) (i i' : Nat) (hi : 
   unfold sqNorm
   exact Finset.sum_congr rfl fun j hj => by rw [h j (Finset.mem_range.mp hj)]
 
-/-- **`gsvd_predict_row`**: `predict` on row `i` of the fitted matrix reproduces `embedding_row_[i]`
+/-- **`gsvd_predict_row`**: `predict` on a batch `x` whose row `r` is row `i` of the fitted matrix returns `embedding_row_[i]` in row `r`
     (with or without regularisation and normalisation), provided the solver output satisfies its contract and
     `pow` splits every returned singular value: `σ^{1−α} σ^{α} = σ`, `σ^{α} ≠ 0` (true for `σ > 0`). -/
 theorem gsvd_predict_row (hc : 0 < nCol)
     (hsol : IsSingularTriplets (gsvdOperator F nRow nCol a p).2.2.2.2 sv u v)
-    (i : Nat) (hi : i < nRow) (x : Mat α) (hx : ∀ j, j < nCol → mget x 0 j = mget a i j)
+    (i : Nat) (hi : i < nRow) (nVec r : Nat) (hr : r < nVec) (x : Mat α) (hx : ∀ j, j < nCol → mget x r j = mget a i j)
     (hpow : ∀ c, c < sv.length →
       F.pow (vget sv c) (1 - p.factorSingular) * F.pow (vget sv c) p.factorSingular = vget sv c ∧
       F.pow (vget sv c) p.factorSingular ≠ 0)
@@ -237,7 +237,7 @@ theorem gsvd_predict_row (hc : 0 < nCol)
         (gsvdPost F nRow nCol p k (gsvdOperator F nRow nCol a p).2.2.1 (gsvdOperator F nRow nCol a p).2.2.2.1
           (gsvdOperator F nRow nCol a p).2.1 sv u v).right
         (gsvdPost F nRow nCol p k (gsvdOperator F nRow nCol a p).2.2.1 (gsvdOperator F nRow nCol a p).2.2.2.1
-          (gsvdOperator F nRow nCol a p).2.1 sv u v).weightsCol 1 x) 0 c
+          (gsvdOperator F nRow nCol a p).2.1 sv u v).weightsCol nVec x) r c
       = mget (gsvdPost F nRow nCol p k (gsvdOperator F nRow nCol a p).2.2.1 (gsvdOperator F nRow nCol a p).2.2.2.1
           (gsvdOperator F nRow nCol a p).2.1 sv u v).embeddingRow i c := by
   generalize hdr : (gsvdOperator F nRow nCol a p).2.2.1 = dr
@@ -248,40 +248,40 @@ theorem gsvd_predict_row (hc : 0 < nCol)
   have hwcout : out.weightsCol = wc := by rw [← hout]; rfl
   -- the raw (un-normalised) predicted row equals the raw embedding row
   have hraw : ∀ c, c < sv.length →
-      (vget (tab 1 fun i' => pinv (F.pow (vget ((regOf 1 nCol x p.regularization).matvec (tab nCol fun _ => 1)) i')
-            p.factorRow)) 0
-        * mget ((((regOf 1 nCol x p.regularization).rightDiag
+      (vget (tab nVec fun i' => pinv (F.pow (vget ((regOf nVec nCol x p.regularization).matvec (tab nCol fun _ => 1)) i')
+            p.factorRow)) r
+        * mget ((((regOf nVec nCol x p.regularization).rightDiag
             (tab nCol fun j => pinv (F.pow (vget out.weightsCol j) p.factorCol))).leftDiag
-            (tab 1 fun i' => pinv (F.pow (vget ((regOf 1 nCol x p.regularization).matvec (tab nCol fun _ => 1)) i')
-              p.factorRow))).matmat sv.length out.right) 0 c)
+            (tab nVec fun i' => pinv (F.pow (vget ((regOf nVec nCol x p.regularization).matvec (tab nCol fun _ => 1)) i')
+              p.factorRow))).matmat sv.length out.right) r c)
         / F.pow (vget out.singularValues c) p.factorSingular
       = gsvdRowRaw F nRow nCol p k dr dc wc sv u v i c := by
     intro c hcs
     have hc' := svIndex_lt sv c hcs
     generalize hcidx : (svIndex sv).getD c 0 = c' at hc'
     -- weights of the new row = weights of row i
-    have hwr : vget ((regOf 1 nCol x p.regularization).matvec (tab nCol fun _ => 1)) 0
+    have hwr : vget ((regOf nVec nCol x p.regularization).matvec (tab nCol fun _ => 1)) r
         = Spec.gsvdWeightRow nCol a (p.regularization.getD 0) i := by
-      rw [regOf_rowWeights 1 nCol hc x _ 0 (by omega)]
+      rw [regOf_rowWeights nVec nCol hc x _ r hr]
       unfold Spec.gsvdWeightRow Spec.aReg
       exact sumN_congr fun j hj => by rw [hx j hj]
-    have hdr0 : vget (tab 1 fun i' => pinv (F.pow (vget ((regOf 1 nCol x p.regularization).matvec
-          (tab nCol fun _ => 1)) i') p.factorRow)) 0 = vget dr i := by
-      rw [vget_tab_lt _ (by omega), hwr, ← hdr, gsvd_diagRow F nRow nCol a p hc i hi]
+    have hdr0 : vget (tab nVec fun i' => pinv (F.pow (vget ((regOf nVec nCol x p.regularization).matvec
+          (tab nCol fun _ => 1)) i') p.factorRow)) r = vget dr i := by
+      rw [vget_tab_lt _ hr, hwr, ← hdr, gsvd_diagRow F nRow nCol a p hc i hi]
     have hdcj : ∀ j, j < nCol → vget (tab nCol fun j => pinv (F.pow (vget out.weightsCol j) p.factorCol)) j = vget dc j := by
       intro j hj
       rw [vget_tab_lt _ hj, hwcout, ← hwc, gsvd_weightsCol F nRow nCol a p hc j hj, ← hdc,
         gsvd_diagCol F nRow nCol a p hc j hj]
-    rw [matmat_diag_regOf 1 nCol _ x _ _ _ _ 0 c (by omega) hcs]
+    rw [matmat_diag_regOf nVec nCol _ x _ _ _ _ r c hr hcs]
     -- every entry of the weighted new row is the entry of the fitted operator
     have hent : ∀ j, j < nCol →
-        (((regOf 1 nCol x p.regularization).rightDiag
+        (((regOf nVec nCol x p.regularization).rightDiag
             (tab nCol fun j => pinv (F.pow (vget out.weightsCol j) p.factorCol))).leftDiag
-            (tab 1 fun i' => pinv (F.pow (vget ((regOf 1 nCol x p.regularization).matvec (tab nCol fun _ => 1)) i')
-              p.factorRow))).entry 0 j * mget out.right j c
+            (tab nVec fun i' => pinv (F.pow (vget ((regOf nVec nCol x p.regularization).matvec (tab nCol fun _ => 1)) i')
+              p.factorRow))).entry r j * mget out.right j c
         = (gsvdOperator F nRow nCol a p).2.2.2.2.entry i j * mget v j c' := by
       intro j hj
-      rw [entry_diag_regOf 1 nCol x _ _ _ 0 j (by omega) hj, hdr0, hdcj j hj,
+      rw [entry_diag_regOf nVec nCol x _ _ _ r j hr hj, hdr0, hdcj j hj,
         gsvdOperator_entry F nRow nCol a p hc i j hi hj]
       have hr : mget out.right j c = mget v j c' := by
         rw [← hout, gsvdPost_right F nRow nCol p k dr dc wc sv u v j c hj hcs, hcidx]
@@ -316,12 +316,12 @@ theorem gsvd_predict_row (hc : 0 < nCol)
   by_cases hnm : p.normalized = true
   · simp only [hnm, if_true]
     rw [hlen]
-    refine normalize2_row_congr F 1 nRow sv.length _ _ 0 i (by omega) hi ?_ c hcs
+    refine normalize2_row_congr F nVec nRow sv.length _ _ r i hr hi ?_ c hcs
     intro c hc2
-    rw [mget_mkMat_lt _ (by omega) hc2, mget_mkMat_lt _ hi hc2]
+    rw [mget_mkMat_lt _ hr hc2, mget_mkMat_lt _ hi hc2]
     exact hraw c hc2
   · simp only [hnm, if_false, Bool.false_eq_true]
-    rw [hlen, mget_mkMat_lt _ (by omega) hcs, mget_mkMat_lt _ hi hcs]
+    rw [hlen, mget_mkMat_lt _ hr hcs, mget_mkMat_lt _ hi hcs]
     exact hraw c hcs
 
 /-- the re-ordered triplets kept as `singular_values_`, `singular_vectors_left_`, `singular_vectors_right_` are still
@@ -386,13 +386,13 @@ theorem centred_colsum_zero (hr : 0 < nRow) (j : Nat) : ∑ i ∈ range nRow, Sp
     solver output satisfies its contract and the singular values are not zero. -/
 theorem pca_predict_row (nm : Bool)
     (hsol : IsSingularTriplets (pcaOperator nRow nCol a) sv u v)
-    (i : Nat) (hi : i < nRow) (x : Mat α) (hx : ∀ j, j < nCol → mget x 0 j = mget a i j)
+    (i : Nat) (hi : i < nRow) (nVec r : Nat) (hr : r < nVec) (x : Mat α) (hx : ∀ j, j < nCol → mget x r j = mget a i j)
     (hsv : ∀ c, c < sv.length → vget sv c ≠ 0)
     (c : Nat) (hcs : c < sv.length) :
-    mget (pcaPredictCore F nm nCol sv v (pcaMeans nRow nCol a) 1 x) 0 c
+    mget (pcaPredictCore F nm nCol sv v (pcaMeans nRow nCol a) nVec x) r c
       = mget (pcaPost F nRow nCol nm (pcaMeans nRow nCol a) sv u v).embeddingRow i c := by
   have hraw : ∀ c, c < sv.length →
-      ((sumN nCol fun j => mget x 0 j * mget v j c)
+      ((sumN nCol fun j => mget x r j * mget v j c)
         - vget (tab sv.length fun c => sumN nCol fun j => vget (pcaMeans nRow nCol a) j * mget v j c) c) / vget sv c
       = mget u i c := by
     intro c hcs
@@ -400,7 +400,7 @@ theorem pca_predict_row (nm : Bool)
     have hnc : (pcaOperator nRow nCol a).nCol = nCol := rfl
     rw [hnc] at hcon
     rw [vget_tab_lt _ hcs, sumN_eq_sum, sumN_eq_sum, ← Finset.sum_sub_distrib]
-    have : ∀ j ∈ range nCol, mget x 0 j * mget v j c - vget (pcaMeans nRow nCol a) j * mget v j c
+    have : ∀ j ∈ range nCol, mget x r j * mget v j c - vget (pcaMeans nRow nCol a) j * mget v j c
         = (pcaOperator nRow nCol a).entry i j * mget v j c := by
       intro j hj
       have hj' := Finset.mem_range.mp hj
@@ -412,12 +412,12 @@ theorem pca_predict_row (nm : Bool)
   simp only []
   by_cases hnm : nm = true
   · simp only [hnm, if_true]
-    refine normalize2_row_congr F 1 nRow sv.length _ _ 0 i (by omega) hi ?_ c hcs
+    refine normalize2_row_congr F nVec nRow sv.length _ _ r i hr hi ?_ c hcs
     intro c hc2
-    rw [mget_mkMat_lt _ (by omega) hc2]
+    rw [mget_mkMat_lt _ hr hc2]
     exact hraw c hc2
   · simp only [hnm, if_false, Bool.false_eq_true]
-    rw [mget_mkMat_lt _ (by omega) hcs]
+    rw [mget_mkMat_lt _ hr hcs]
     exact hraw c hcs
 
 end SkNet.Embedding
